@@ -8,7 +8,10 @@ use std::sync::atomic::{AtomicBool, AtomicU64, Ordering};
 use std::sync::Mutex;
 use std::time::{Duration, Instant};
 
-pub const VERIF_DIR: &str = "/verif";
+/// Root of the verification tree (set by ./check; /verif unless run from a snapshot).
+pub fn verif_dir() -> String {
+    std::env::var("VERIF_DIR").unwrap_or_else(|_| "/verif".to_string())
+}
 
 #[derive(Clone, Debug)]
 pub struct Viol {
@@ -647,7 +650,7 @@ impl Report {
             "wall_s": wall,
             "violations": new_viol,
         });
-        let dir = format!("{VERIF_DIR}/evidence");
+        let dir = format!("{}/evidence", verif_dir());
         let _ = std::fs::create_dir_all(&dir);
         let path = format!("{dir}/{}.json", self.property);
         if let Err(e) = std::fs::write(&path, serde_json::to_string_pretty(&ev).unwrap()) {
@@ -734,7 +737,7 @@ pub struct Known {
 ///   known: property=C04 sig="..." what="..."
 ///   fixed: property=C01 <commit> <what failed> sig="..."
 pub fn load_known() -> Vec<Known> {
-    let path = format!("{VERIF_DIR}/known_findings.txt");
+    let path = format!("{}/known_findings.txt", verif_dir());
     let Ok(s) = std::fs::read_to_string(path) else {
         return vec![];
     };
@@ -770,7 +773,7 @@ pub fn load_known() -> Vec<Known> {
 }
 
 fn write_replay(property: &str, f: &Found) -> String {
-    let dir = format!("{VERIF_DIR}/replays/{property}");
+    let dir = format!("{}/replays/{property}", verif_dir());
     let _ = std::fs::create_dir_all(&dir);
     let h = fnv128(format!("{}|{}", f.part, f.viol.sig).as_bytes());
     let path = format!("{dir}/{:016x}.json", (h >> 64) as u64);
